@@ -55,8 +55,10 @@ ASSUMPTIONS = [
     "indentation, '[threshold ]Name[: args][ # comment]'); all other texts get totality and the line law only",
     "blank and comment lines have free indentation (fixed by the repository's own parser tests): they never close or open "
     "a scope in the reference and nothing is asserted about their parent or their indent_error flag",
-    "'correctly indented' = every instruction line sits at the body indentation of a scope that is open at that point "
-    "(an opener directly followed by a line at its own or a shallower open level has an empty body)",
+    "'correctly indented' = every instruction line sits at the body indentation of a scope that is open at that point; "
+    "an opener directly followed by a line at its own or a shallower open level either has an empty body (the line hangs "
+    "under the reference parent, unflagged) or the line is flagged as indentation error - both readings are accepted, "
+    "only an unflagged line attached to the wrong parent is reported",
     "a correctly indented instruction line must not carry indent_error (such a line 'cannot execute due to incorrect "
     "indentation' in the analyzer) - implied by 'any OTHER indentation is flagged'",
     "after the first indentation error only the local law is checked (the statement does not define error recovery)",
@@ -221,6 +223,14 @@ def _structure(nodes, lines, cls, case):
         ws_low_after_opener = first_body_line and any(w <= cls[prev_opener][1] for w in ws_since)
         if empty_closed:
             saw_empty_body = True
+            if n.indent_error:
+                # The statement does not say whether an opener needs an indented body.  Reading A: the body is empty and
+                # this line hangs under the reference parent, unflagged.  Reading B (the parser's own 'increment_required'):
+                # the missing increment is an indentation error and this line is flagged.  Both are accepted; only a line
+                # that is neither flagged nor under the reference parent (silently re-nested) is a violation.
+                offence_at = k
+                classes.append("offence:empty-body-flagged")
+                break
         if first_body_line and ws_since:
             saw_ws_after_opener = True
         while stack[-1][1] != c:
